@@ -1,5 +1,5 @@
 """C01 - every partitioner returns a true partition into the requested number of bins."""
-from .. import core, scope, drive, gen
+from .. import core, scope, drive, gen, models
 from .common import *
 
 
@@ -27,6 +27,8 @@ def ctx_of(fl):
 
 def run(ck):
     q = ck.quick()
+    # L1: the complete-greedy machine conserves items at every step and never ends without a partition
+    models.cg_mc(ck, 4 if q else 5, 3, 3, models.SW_SOME if q else models.SW_ALL, False, ["ResultValid", "ResultNotNone", "Conservation", "BestConsistent"])
     P = scope.p_scope(ck, 5, 5, 4) if q else scope.p_scope(ck, 6, 6, 6)
     ck.exhaustive = True
     groups = []
